@@ -115,7 +115,8 @@ Definition is_let (i : nat) : bool := existsb (Nat.eqb i) [T_alias_slice; T_alia
    that starts with a binary operator token (-a;) is glued to it *)
 Definition ends_with_assignment (i : nat) : bool :=
   existsb (Nat.eqb i) [T_assign_lit; T_assign_paren; T_assign_index; T_assign_measure; T_assign_call; T_assign_cast;
-                       T_if_else_stmts; T_while_stmt; T_for_set; T_annotation; T_assign_unary; T_assign_not; T_cast_nested].
+                       T_if_else_stmts; T_while_stmt; T_for_set; T_annotation; T_assign_unary; T_assign_not; T_cast_nested;
+                       T_assign_compound; T_multi_index; T_measure_range].
 Definition starts_with_operator (j : nat) : bool := Nat.eqb j T_expr_neg.
 (* C16: an empty statement `;` directly after a statement parsed by the top-level item routine
    (declarations, definitions, control flow, ...) is reported as "expected statement, found `;`";
@@ -138,6 +139,10 @@ Definition item_first (k la : N) : bool :=
 Definition is_item (i : nat) : bool := let '(k, la) := first_kinds (nth i templates []) in item_first k la.
 Definition is_empty_stmt (j : nat) : bool := Nat.eqb j T_empty.
 Definition k_empty_after_item (i j : nat) : bool := is_item i && is_empty_stmt j.
+(* C04: a box statement `box { ... }` needs a terminating `;` where a statement end is required
+   (everywhere except directly before a closing brace): BOX_EXPR is not treated as block-like
+   (pinned by the reference/scope/nop.qasm parse snapshot) *)
+Definition k_box_top (c i : nat) : bool := Nat.ltb c 4 && Nat.eqb i T_box_stmt.
 (* the same class seen through the statement contexts: context 3 puts `int z;` (an item) in front *)
 Definition k_ctx_empty (c i : nat) : bool := Nat.eqb c 3 && is_empty_stmt i.
 Definition k_c16 (i j : nat) : bool :=
